@@ -48,7 +48,7 @@ CHECKS = {
    note='Trusted: Coq kernel; R axioms (sig_forall_dec, functional_extensionality_dep); hand model InterpDefs.v tied by K-matrix; extraction ExtrOcamlBasic+ExtrOcamlZBigInt. Linear reproduction in theta follows the same 1-D algebra and is evaluated on the implementation only.',
    design='5/C08'),
  'C09': dict(
-   technique='Coq proof (field identities: 4-point Lagrange weights exact for cubics for all spacings; FMG rows: coarse identity, constants, fall-back location, cubic exactness in r) + complete per-grid matrix correspondence of applyFMGInterpolation',
+   technique='Coq proof that the FMG interpolation macro regenerated from the source (translator T3) is the row model FMG_row, and Coq proof (field identities: 4-point Lagrange weights exact for cubics for all spacings; FMG rows: coarse identity, constants, fall-back location, cubic exactness in r) + complete per-grid matrix correspondence of applyFMGInterpolation',
    text='Part (a), interpolation: proved for all positive spacings and all nr = 2M+1 (M >= 2). The real FMG matrix is extracted on random '
         'pairs and compared with the model rows. Part (b): the FMG start-up is the nested-iteration op sequence (exact op-trace correspondence of '
         'solve()), it reads only right-hand sides (theorem for every number of levels / cycle type / iteration count), and with two levels and '
